@@ -34,7 +34,7 @@ static std::vector<std::string> lines_of(const std::string &t)
 
 static Plan keygen_generate(uint64_t seed, const Tier &tier)
 {
-	Plan p; p.seed = seed; p.property = "C08";
+	Plan p; p.seed = seed; p.property = (tier.property == "C04") ? "C04" : "C08";
 	Rng g(derive(seed, 1));
 	int k = (int)g.range(2, g.chance(1, 6) ? 8 : 5);
 	p.cfg["k"] = k; p.cfg["group"] = (int64_t)g.below(4);
@@ -198,7 +198,13 @@ static RunResult keygen_execute(const Plan &plan)
 			any_fault = true;
 			res.cnt[std::string("fault.contribution_") + what]++;
 			S.hist.add(H_FAULT, s * 16 + d, field * 8 + kind, ok);
-			if (ok) violate("malformed_contribution_accepted", "contribution of party " + std::to_string(s) + " with field " + std::to_string(field) + " altered (" + what + ") was accepted by party " + std::to_string(d));
+			if (ok && plan.property == "C04" && (kind == 6 || kind == 7 || field != 0))
+			{
+				// soundness of the key-share proof (C04): a key with a proof that does not fit it
+				std::ostringstream c; c << " [k=" << k << " group=" << G.fs << "/" << G.ss << " kind=" << G.kind << (accepted[d].count(s) ? " key already stored at the recipient" : "") << "]";
+				res.violate("C04", "keyshare_proof_not_fitting_accepted", "keygen:keyshare_proof_not_fitting_accepted", "key share of party " + std::to_string(s) + " with a non-fitting proof (" + what + ", field " + std::to_string(field) + ") was accepted by party " + std::to_string(d) + c.str());
+			}
+			else if (ok) violate("malformed_contribution_accepted", "contribution of party " + std::to_string(s) + " with field " + std::to_string(field) + " altered (" + what + ") was accepted by party " + std::to_string(d));
 			else if (mpz_cmp(before, P[d]->h)) violate("key_changed_by_refused_contribution", "a refused contribution (" + what + ") changed the common key");
 		}
 		else if (op.kind == "dupall")
